@@ -296,26 +296,98 @@ theorem C13_decorator_new (s : St κ) (t : Task) (k : κ) (km : Bool) :
       | none => simp [ho] at hr
       | some o => simp
 
-/-- **`@task_unique`, legacy subsystem** (`call_action` checks `unique_name_used` inside the trigger loop, the new task
-later starts with `task_unique(name)`): equal to the new subsystem's rule *provided the owner of the name did not
-change between the check (state `s0`) and the first segment of the new task (state `s`)*. -/
-theorem C13_decorator_legacy_partial (s0 s : St κ) (t : Task) (k : κ) (km : Bool)
+/-- **`@task_unique`, legacy subsystem – the code as it is now** (`call_action` checks `unique_name_used` in the
+trigger loop; the new task starts with `task_unique(name, kill_me=…)`, /repo a7d4ccd).  Whatever happened between the
+dispatcher's check and the first segment of the new task (no proviso any more): the first segment *is* the
+`task.unique` rule with the decorator's `kill_me`; ownership afterwards is what the new subsystem's decorator produces
+in the same state; and a fresh task goes on to run its body exactly when the new subsystem's decorator would let it
+run – with `kill_me=True` and the name owned by somebody else the new run parks itself and the owner is untouched. -/
+theorem C13_decorator_legacy (s : St κ) (t : Task) (k : κ) (km : Bool) :
+    decoLegacyStep current s t k km = uniqueStep s t k km ∧
+    (decoLegacyStep current s t k km).owner = (decoNewStep s t k km).owner ∧
+    (canStep s t = true → s.owner k ≠ some t →
+      canStep (decoLegacyStep current s t k km) t = decoRuns s k km) := by
+  have e0 : decoLegacyStep current s t k km = uniqueStep s t k km := by
+    simp [decoLegacyStep, current]
+  have hclaim : ∀ v : St κ, (claim v t k).live = v.live ∧ (claim v t k).parked = v.parked := fun v =>
+    ⟨(claim_queue v t k).2.2.2.2.2, (claim_queue v t k).2.2.2.2.1⟩
+  refine ⟨e0, ?_, ?_⟩
+  · rw [e0]
+    cases km with
+    | false => simp [decoNewStep, decoRuns]
+    | true =>
+      cases ho : s.owner k with
+      | none =>
+        rw [C13_killme_free s t k (Or.inl ho)]
+        simp [decoNewStep, decoRuns, nameUsed, ho]
+      | some o =>
+        have hd : decoNewStep s t k true = s := by simp [decoNewStep, decoRuns, nameUsed, ho]
+        rw [hd]
+        unfold uniqueStep
+        split
+        · rfl
+        · simp only [ho, if_true]
+          split
+          · rfl
+          · rename_i hot
+            have hot : o = t := Classical.not_not.1 hot
+            subst hot
+            by_cases hours : s.ours o = true
+            · rw [claim_eq s o k hours]
+              funext x
+              simp only [upd_apply]
+              split
+              · rename_i e; subst e; exact ho.symm
+              · rfl
+            · rw [claim_not_ours s o k hours]
+  · intro hc hne
+    rw [e0]
+    unfold uniqueStep
+    simp only [hc, Bool.not_true, Bool.false_eq_true, if_false]
+    have hcan : ∀ v : St κ, v.live = s.live → v.parked = s.parked → canStep (claim v t k) t = true := by
+      intro v e1 e2
+      unfold canStep
+      rw [(hclaim v).1, (hclaim v).2, e1, e2]
+      exact hc
+    cases ho : s.owner k with
+    | none =>
+      simp only [decoRuns, nameUsed, ho, Option.isSome_none, Bool.and_false, Bool.not_false]
+      exact hcan s rfl rfl
+    | some o =>
+      have hot : o ≠ t := fun e => hne (by rw [ho, e])
+      cases km with
+      | false =>
+        simp only [Bool.false_eq_true, if_false, decoRuns, Bool.false_and, Bool.not_false]
+        apply hcan
+        · unfold killPrev; split <;> rfl
+        · unfold killPrev; split <;> rfl
+      | true =>
+        simp only [if_true, ne_eq, hot, not_false_eq_true, decoRuns, nameUsed, ho, Option.isSome_some,
+          Bool.and_self, Bool.not_true]
+        simp [canStep, park]
+
+/-- **Regression statement about the pre-fix shape** (claim without `kill_me`): it equalled the new subsystem's rule
+only *provided the owner of the name did not change between the check (state `s0`) and the first segment of the new
+task (state `s`)*. -/
+theorem C13_regress_decorator_legacy_partial (s0 s : St κ) (t : Task) (k : κ) (km : Bool)
     (hcheck : decoRuns s0 k km = true) (hsame : s.owner k = s0.owner k) :
-    uniqueStep s t k false = decoNewStep s t k km := by
+    decoLegacyStep preFix s t k km = decoNewStep s t k km := by
   unfold decoNewStep
   have : decoRuns s k km = true := by
     unfold decoRuns nameUsed at hcheck ⊢; rw [hsame]; exact hcheck
-  simp [this]
+  simp [this, decoLegacyStep, preFix]
 
-/-- Witness that the proviso is needed: two occurrences of a `kill_me=True` function dispatched in the same instant.
-Both checks see the name free; legacy then lets the second run displace the first (cancel queued for task 0), whereas
-the kill-me rule (and the new subsystem) keeps task 0 and drops task 1. -/
-theorem C13_decorator_legacy_cex :
+/-- **Regression witness (C13-F1, fixed by /repo a7d4ccd)**: two occurrences of a `kill_me=True` function dispatched in
+the same instant; both dispatcher checks see the name free.  Pre-fix the second run displaced the first (cancel queued
+for task 0); now the second run parks itself and queues *itself* – exactly what the new subsystem's decorator gives
+(task 0 keeps the name). -/
+theorem C13_regress_decorator_legacy_race :
+    let s0 : St Nat := run [.spawn 0 false, .spawn 1 false]
+    let go := fun (cfg : Cfg) => decoLegacyStep cfg (decoLegacyStep cfg s0 0 7 true) 1 7 true
     decoRuns (init : St Nat) 7 true = true ∧
-    (run [.spawn 0 false, .spawn 1 false, .unique 0 (7 : Nat) false, .unique 1 7 false]).owner 7 = some 1 ∧
-    (run [.spawn 0 false, .spawn 1 false, .unique 0 (7 : Nat) false, .unique 1 7 false]).reaperQ = [0] ∧
-    (run [.spawn 0 false, .spawn 1 false, .decoNew 0 (7 : Nat) true, .decoNew 1 7 true]).owner 7 = some 0 ∧
-    (run [.spawn 0 false, .spawn 1 false, .decoNew 0 (7 : Nat) true, .decoNew 1 7 true]).reaperQ = [] := by
+    ((go preFix).owner 7 = some 1 ∧ (go preFix).reaperQ = [0] ∧ (go preFix).parked 1 = false) ∧
+    ((go current).owner 7 = some 0 ∧ (go current).reaperQ = [1] ∧ (go current).parked 1 = true) ∧
+    (run [.spawn 0 false, .spawn 1 false, .decoNew 0 (7 : Nat) true, .decoNew 1 7 true]).owner 7 = some 0 := by
   decide
 
 /-- **The reaper finishes the job.**  Under the runtime assumption that a cancelled task ends at its next suspension
